@@ -127,6 +127,18 @@ def run(tier, seed, model_ok, spec_ok, replay=None):
                 l = g.r.choice(leaves)
                 names = [nm for (m, pk, va, kw) in cg.methods[l.cls] if m == l.method for (nm, _d) in pk] or ["value"]
                 l.args[0] = {names[0]: g.scalar()} if g.r.random() < 0.7 else {"lower": 1, "upper": g.small_int()}
+        elif g.r.random() < 0.10:
+            # literal mappings of several keys, one of which looks like a path-spec key (in any position), as the argument, as an
+            # item of a list argument or as a value of a mapping argument: written escaped, read back as the literal
+            leaves = [l for l in t.leaves() if len(l.args) == 1 and not l.kwargs and "DataType" not in l.cls and "Length" not in l.cls
+                      and l.method in ("equal_to", "not_equal_to", "in_", "not_in", "eq")]
+            if leaves:
+                l = g.r.choice(leaves)
+                keys = g.r.sample(["name", "a", "b", "x"], g.r.randint(1, 2)) + [g.r.choice(["path", "my_path", "path.len", "xpath", "path.first"])]
+                g.r.shuffle(keys)
+                m = {k: g.r.choice([1, "x", "/tmp", ["a"], None, True]) for k in keys}
+                kk = g.r.random()
+                l.args[0] = [m, g.scalar()] if l.method in ("in_", "not_in") or kk < 0.4 else ({"k": m, "j": 1} if kk < 0.7 else m)
         normalise_cond(t)   # specs are JSON/YAML-like: no tuples, named types only (also inside data-path arguments)
         spec = sg.cond_spec(t)
         if spec is None:
